@@ -72,7 +72,11 @@ FullCfg(b, u, o, d, n) ==
 Str(pid, n) == [k |-> "str", pl |-> Plain(pid, n)]
 Arr(v) == [k |-> "arr", v |-> v]
 Dict(typ, v) == [k |-> "dict", typ |-> typ, v |-> v]
-Stream(typ, crypt, d, pid, n) == [k |-> "stream", typ |-> typ, crypt |-> crypt, d |-> d, pl |-> Plain(pid, n)]
+Stream(typ, crypt, d, pid, n) == [k |-> "stream", typ |-> typ, crypt |-> crypt, d |-> d, pl |-> Plain(pid, n), mem |-> <<>>]
+\* what load_mem leaves of a file with object streams and a cross-reference stream: the container (mem = positions of
+\* the objects unpacked from it, made ghost copies by AttachMembers) and the XRef stream object (its dictionary has /ID)
+ObjStm(pid, n, mem) == [k |-> "stream", typ |-> "ObjStm", crypt |-> NoCrypt, d |-> <<>>, pl |-> Plain(pid, n), mem |-> mem]
+XRefStm(pid, n) == Stream("XRef", NoCrypt, << Arr(<< Str("i0", 16), Str("i1", 16) >>) >>, pid, n)
 Other == [k |-> "other"]
 Cr(f, n) == [f |-> f, n |-> n]
 
@@ -89,6 +93,16 @@ DocOf(d) ==
       [] d = "D4" -> << Stream("-", NoCrypt, <<>>, "e", 0),
                         Dict("Metadata", << Str("s8", 19) >>),
                         Arr(<< Dict("-", << Dict("Metadata", << Str("s9", 21) >>), Str("s10", 32) >>), Str("s11", 1) >>) >>
+      \* loaded from a file with an object stream (objects 1, 2 unpacked from container 4) and an xref stream (5)
+      [] d = "D5" -> AttachMembers(<< Dict("-", << Str("m1", 20), Arr(<< Str("m2", 5) >>) >>),
+                                      Dict("-", << Str("m3", 17) >>),
+                                      Stream("-", NoCrypt, << Str("s12", 18) >>, "t9", 25),
+                                      ObjStm("c1", 60, <<1, 2>>),
+                                      XRefStm("x1", 42) >>)
+      \* loaded from a file with an xref stream, no object streams
+      [] d = "D6" -> << Dict("-", << Str("m4", 22) >>),
+                        Stream("-", NoCrypt, << Str("s13", 16) >>, "t10", 19),
+                        XRefStm("x2", 28) >>
 
 RECURSIVE ObjJson(_)
 ObjJson(o) ==
@@ -96,7 +110,7 @@ ObjJson(o) ==
       [] o.k = "arr"    -> [k |-> "arr", v |-> [i \in DOMAIN o.v |-> ObjJson(o.v[i])]]
       [] o.k = "dict"   -> [k |-> "dict", typ |-> o.typ, v |-> [i \in DOMAIN o.v |-> ObjJson(o.v[i])]]
       [] o.k = "stream" -> [k |-> "stream", typ |-> o.typ, crypt |-> o.crypt, d |-> [i \in DOMAIN o.d |-> ObjJson(o.d[i])],
-                            pid |-> o.pl.pid, len |-> o.pl.n0]
+                            pid |-> o.pl.pid, len |-> o.pl.n0, mem |-> [x \in DOMAIN o.mem |-> o.mem[x].pos]]
       [] OTHER          -> [k |-> "other"]
 
 ASSUME \A d \in DocIds : PrintT(<<"DOC", ToJson([dn |-> d, objs |-> [i \in DOMAIN DocOf(d) |-> ObjJson(DocOf(d)[i])]])>>)
@@ -106,15 +120,19 @@ PairsQuick == {<<"A", "B">>, <<"E", "B">>, <<"A", "E">>, <<"A", "A">>, <<"N", "B
 PairsFull  == PairsQuick \cup {<<"E", "E">>, <<"L1", "B">>, <<"A", "L1">>, <<"A", "H1">>, <<"N", "N2">>, <<"B", "N">>, <<"H1", "H1">>}
 AttemptsQuick == {"W", "E"}
 AttemptsFull  == {"W", "E", "L2", "S32", "H2", "T127", "N2"}
-AllKnown == {"owner.R234.key", "streamdict.string", "pw.gt127.R56", "crypt.dparray", "metadata.nonstream"}
+AllKnown == {"owner.R234.key", "streamdict.string", "pw.gt127.R56", "crypt.dparray", "metadata.nonstream", "restored.objstm.member"}
+\* documents in the state a loader leaves them in; the caller may edit these objects of them (each once) while unencrypted
+FileDocs == {"D5", "D6"}
+EditPos(d) == IF d = "D5" THEN {1, 3} ELSE IF d = "D6" THEN {1} ELSE {}
 
 -----------------------------------------------------------------------------
 \* Prune = TRUE: not the full product - every configuration x every document with the pair <<"A","B">>, and every
 \* password pair on document D1 with one configuration per revision class (passwords do not interact with the walk)
+\* (the loaded-from-file documents, whose edits multiply the states, also with one configuration per revision class)
+Rep(b) == b.em /\ b.stmf # "Identity" /\ b.strf # "Identity" /\ b.klen \in {40, 128, 256} /\ (b.V = 4 => b.cf[1][2] = b.cf[2][2])
 Combo(b, p, d) ==
-    Prune => \/ p = <<"A", "B">>
-             \/ d = "D1" /\ b.em /\ b.stmf # "Identity" /\ b.strf # "Identity" /\ b.klen \in {40, 128, 256}
-                /\ (b.V = 4 => b.cf[1][2] = b.cf[2][2])
+    Prune => \/ p = <<"A", "B">> /\ (d \in FileDocs => Rep(b))
+             \/ d = "D1" /\ Rep(b)
 
 Init ==
     /\ \E b \in CfgSet, p \in Pairs, d \in DocIds : Combo(b, p, d) /\ SysInit(FullCfg(b, p[1], p[2], d, NObj(DocOf(d))), DocOf(d))
@@ -126,7 +144,7 @@ Toks == {cfg.user, cfg.owner} \cup Attempts
 Entry ==
     [call |-> lastCall'.call, tok |-> lastCall'.tok, rel |-> lastCall'.rel,
      ok |-> verdict'.ok, tags |-> verdict'.tags,
-     res |-> IF lastResult'.ok THEN "Ok" ELSE "Err"]
+     res |-> IF lastResult'.ok THEN "Ok" ELSE "Err", pos |-> lastCall'.pos]
 
 Rec == hist' = Append(hist, Entry)
 
@@ -139,8 +157,15 @@ DecryptH   == \E t \in Toks : Decrypt(RelOf(t), t) /\ Rec
 AuthUserH  == trailerEncrypt # 0 /\ \E t \in Toks : AuthUser(RelOf(t), t) /\ Rec
 AuthOwnerH == trailerEncrypt # 0 /\ \E t \in Toks : AuthOwner(RelOf(t), t) /\ Rec
 AuthH      == trailerEncrypt # 0 /\ \E t \in Toks : Auth(RelOf(t), t) /\ Rec
+\* an edit of a loaded document (each object at most once, to keep the state space finite)
+RECURSIVE Edited(_)
+Edited(o) == CASE o.k = "str" -> o.pl.ed > 0
+               [] o.k \in {"arr", "dict"} -> \E i \in DOMAIN o.v : Edited(o.v[i])
+               [] o.k = "stream" -> o.pl.ed > 0
+               [] OTHER -> FALSE
+EditH      == \E pos \in EditPos(cfg.dn) : ~Edited(doc[pos]) /\ Edit(pos) /\ Rec
 
-Next == MakeStateH \/ EncryptH \/ SaveH \/ LoadH \/ DecryptH \/ AuthUserH \/ AuthOwnerH \/ AuthH
+Next == MakeStateH \/ EncryptH \/ SaveH \/ LoadH \/ DecryptH \/ AuthUserH \/ AuthOwnerH \/ AuthH \/ EditH
 
 Spec == Init /\ [][Next]_vars
 
